@@ -163,7 +163,8 @@ def main():
         for n in P['tlens']:
             for org in P['with_origin']:
                 for rg in P['range_']:
-                    cases.append(dict(entry=entry, tlen=n, first='slash', origin=org, range=rg))
+                    for sec in ('dot', 'slash', 'qh', 'alnum', 'other'):
+                        cases.append(dict(entry=entry, tlen=n, first='slash', second=sec, origin=org, range=rg))
     results = chk.run_cases(case, cases, label='GET/HEAD/OPTIONS relational sweep')
     chk.extra['GET_paths_serving_a_file'] = sum(r.get('served', 0) for r in results); chk.extra['joint_pairs_checked'] = sum(r.get('pairs', 0) for r in results)
 
